@@ -63,6 +63,11 @@ def cases(rng, quick, gr):
     # (4c) extreme but finite magnitudes
     for lit in ["1e-20", "3.5e+15", "2E-30", "1e25", "9.99e-7", "123456789012.5", "1e-300*1e5", "7e150*7e-150"]:
         yield {"tag": "extreme-magnitude", "text": HDR + DECLS + "Op(%s, %s * x, 1 / %s, (%s) ** 2, %s + n) | 0\n" % (lit, lit, lit, lit, lit)}
+    # (4a) complex exponents on integer / float / complex bases, as literals and variables
+    for base in ["2", "n", "A[1]", "(1+1)", "3", "2.0", "x", "1j", "(2)"]:
+        for ex in ["1j", "-0.5J", "1+1j", "zc", "2j", "(0.5+0.25j)"]:
+            yield {"tag": "complex-exponent", "text": HDR + DECLS + "complex zc = 0.25-1j\nOp(%s ** %s, 1 + %s ** %s * 2) | 0\n" % (base, ex, base, ex)}
+    yield {"tag": "complex-exponent", "text": HDR + DECLS + "complex zc = 0.5j\nfor int k in 2:4\n    Op(k ** zc, 2 ** 3 ** 1j) | 0\n"}
     # (4b) left-to-right evaluation with exact integers: integer terms above 2**53 whose exact partial sum is small, followed or
     #      preceded by a float / complex term (summing all terms at once in floating point loses the integer part)
     bigs = [2 ** 53 + 1, 2 ** 53 + 3, 2 ** 62 + 1, 4611686018427387905, 9007199254740995, 2 ** 60 + 7]
